@@ -503,6 +503,8 @@ class Exec:
     def frame_scalar(self, st, path):
         if self.assigns is None or self.quiet:
             return
+        if path.startswith(('tmp:', 'local:', 'heap:')):
+            return          # members of temporaries and locals are not visible to the caller
         for t in self.assigns:
             if t[0] == 's' and (t[1] == path or (t[1].endswith('*') and path.startswith(t[1][:-1]))):
                 return
@@ -511,7 +513,7 @@ class Exec:
     def frame_elem(self, st, l):
         if self.assigns is None or self.quiet:
             return
-        if l.region.startswith('new:') or l.region.startswith('local:'):
+        if l.region.startswith(('new:', 'local:', 'tmp:', 'heap:')):
             return
         conds = []
         for t in self.assigns:
@@ -530,7 +532,7 @@ class Exec:
     def frame_range(self, st, region, lo, hi):
         if self.assigns is None or self.quiet:
             return
-        if region.startswith('new:') or region.startswith('local:'):
+        if region.startswith(('new:', 'local:', 'tmp:', 'heap:')):
             return
         conds = []
         for t in self.assigns:
@@ -838,6 +840,11 @@ class Exec:
         if ck == 'FloatingToIntegral':
             self.ideal = True
             tr = z3.If(v.t >= 0, z3.ToInt(v.t), -z3.ToInt(-v.t))
+            dv = (self.domain_values or {}).get(self.cur_decl)
+            if dv is not None and not self.inline_depth:
+                # stated domain assumption on the real value being converted in the initialiser of this local
+                # (listed in evidence under domain_assumptions_on_derived_values)
+                st.assume(dv[0](Ctx(self, st, self.entry, self.args0), v.t))
             # C++ [conv.fpint]: undefined unless the truncated value is representable
             self.safe(st, 'fptoint', z3.And(tr >= tgt.lo, tr <= tgt.hi), f'float value converted to {tgt.name} must be representable after truncation')
             return IntV(tr, tgt)
@@ -1053,7 +1060,8 @@ class Exec:
             if self.uf_mul == 'sign' and self.cur_state is not None:
                 # sign rules of multiplication (true of the real product the symbol stands for)
                 self.cur_state.assume(z3.And(z3.Implies(z3.And(x >= 0, y >= 0), r >= 0), z3.Implies(z3.And(x <= 0, y <= 0), r >= 0),
-                                             z3.Implies(z3.Or(x == 0, y == 0), r == 0)))
+                                             z3.Implies(z3.And(x >= 0, y <= 0), r <= 0), z3.Implies(z3.And(x <= 0, y >= 0), r <= 0),
+                                             z3.Implies(z3.Or(x == 0, y == 0), r == 0), z3.Implies(z3.And(x != 0, y != 0), r != 0)))
             return r
         return x * y
 
@@ -1174,11 +1182,25 @@ class Exec:
                     return self.ev_InitListExpr({'type': n['type'], 'inner': []}, st) if not v else v
             if len(args) == 0:
                 return None      # default-initialised POD: indeterminate
+            if pod == 'complex' and len(args) == 2 and all(a.get('kind') == 'CXXDefaultArgExpr' and not a.get('inner') for a in args):
+                return StructV('complex', {'re': RealV(R(0)), 'im': RealV(R(0))})      # std::complex<T>(): (0,0)
             if pod == 'complex' and len(args) == 2 and args[1].get('kind') == 'CXXDefaultArgExpr' and not args[1].get('inner'):
                 return StructV('complex', {'re': self.conv_to(self.ev(args[0], st), parse_type_str('float')), 'im': RealV(R(0))})
             if pod == 'complex' and len(args) == 2:
                 return StructV('complex', {'re': self.conv_to(self.ev(args[0], st), parse_type_str('float')),
                                            'im': self.conv_to(self.ev(args[1], st), parse_type_str('float'))})
+        if self.calls and ct.kind == 'class':
+            # temporary / local object of a class whose constructor is under contract (or bound to an event)
+            cn = strip_quals(ct.name)
+            use = self.calls.get(f'ctor:{cn}/{len(args)}') or self.calls.get(f'ctor:{cn}')
+            if use is not None:
+                self.tmpcount = getattr(self, 'tmpcount', 0) + 1
+                short = cn.split('::')[-1].split('<')[0]
+                tname = f'tmp:{self.pending_name or short}{self.tmpcount}'
+                if hasattr(use, 'ctor_type'):
+                    use.ctor_type = n.get('type', {}).get('qualType')
+                r = use(self, n, st, None, args, this_override=tname)
+                return r if isinstance(r, ObjRef) else ObjRef(tname, ct.name)
         return models.construct(self, n, st, ct)
 
     ev_CXXTemporaryObjectExpr = ev_CXXConstructExpr
@@ -1279,6 +1301,9 @@ class Exec:
             v = self.ev_obj(a, st) if a.get('valueCategory') == 'lvalue' else self.ev(a, st)
             if isinstance(v, ObjRef):
                 v = self.load(LObj(v), st)
+            if isinstance(v, (RealV, IntV)):
+                # std::complex<T>::operator=(const T&): real part assigned, imaginary part zero
+                v = StructV('complex', {'re': self.conv_to(v, parse_type_str('float')), 'im': RealV(R(0))})
             self.store(l, StructV(v.cls, v.fields), st)
             return l
         # 1. contract supplied by the unit's spec
@@ -1489,9 +1514,16 @@ class Exec:
         return [(st, None)]
 
     decl_assume = None
+    domain_values = None
+    cur_decl = None
 
     def declare(self, d, st):
-        self.declare0(d, st)
+        saved = self.cur_decl
+        self.cur_decl = d.get('name')
+        try:
+            self.declare0(d, st)
+        finally:
+            self.cur_decl = saved
         if self.decl_assume and d.get('name') in self.decl_assume and not self.inline_depth:
             cx = Ctx(self, st, self.entry, self.args0)
             st.assume(self.decl_assume[d['name']](cx))
@@ -1863,4 +1895,45 @@ class Exec:
     bounded = 0
 
     def st_CXXTryStmt(self, n, st):
-        return models.try_stmt(self, n, st)
+        """try { B } catch (...) { H }: either B completes, or some call in B throws after an arbitrary prefix of
+        B's writes — the handler then runs from the pre-state with everything B may write havoced.  Both outcomes
+        are followed (the choice is a fresh boolean)."""
+        inner = n.get('inner', [])
+        bodyn = inner[0]
+        handlers = [c for c in inner[1:] if c.get('kind') == 'CXXCatchStmt']
+        if len(handlers) != 1:
+            raise ExtractionError(f'{self.unit}: try with {len(handlers)} handlers (line {self.curline})')
+        hn = handlers[0]
+        hbody = [c for c in hn.get('inner', []) if c.get('kind') == 'CompoundStmt']
+        if not hbody or any(c.get('kind') == 'VarDecl' and c.get('name') for c in hn.get('inner', [])):
+            raise ExtractionError(f'{self.unit}: only catch(...) handlers are modelled (line {self.curline})')
+        # write set of the try body (quiet dry run)
+        saved_w = self.writes
+        self.writes = set()
+        self.quiet += 1
+        try:
+            self.exec(bodyn, st.copy())
+            w = self.writes
+        finally:
+            self.quiet -= 1
+            self.writes = saved_w
+        if saved_w is not None:
+            saved_w |= w
+        thrown = State.fresh('exception_thrown', z3.BoolSort())
+        h = st.copy()
+        for item in sorted(w, key=str):
+            if item[0] == 'v' and item[1] in h.env and h.env[item[1]] is not None:
+                h.env[item[1]] = self.havoc_val(h, h.env[item[1]], h.names.get(item[1], 'v'))
+            elif item[0] == 's' and item[1] in h.scal:
+                h.scal[item[1]] = self.havoc_val(h, h.scal[item[1]], item[1])
+            elif item[0] == 'r':
+                h.havoc_region(item[1])
+            elif item[0] == 'len':
+                h.length[item[1]] = State.fresh(f'len({item[1]})', z3.IntSort())
+                h.assume(h.length[item[1]] >= 0)
+        h.assume(thrown)
+        b = st.copy()
+        b.assume(z3.Not(thrown))
+        r_body = self.exec(bodyn, b)
+        r_handler = self.exec(hbody[0], h)
+        return self.join(thrown, st, r_handler, r_body)
